@@ -100,9 +100,13 @@ def run_operator_case(case, prop, configs, weakly, want, nq=8, cinf_bounds=(5, 5
     from .. import instrument as _ins
     guard = _ins.StallGuard()
     guard.install()
+    debug = rng.random() < 0.04          # answers must not depend on the log level
+    if debug:
+        bump('cases_with_debug_logging')
     try:
-        return _run_configs(rng, res, bump, configs, weakly, mode, sig, conds, keys, via, style, parallel, qs, qtt,
-                            setup, csys, base, bdesc, ref_by_sys, extra, fam, prop)
+        with impl.debug_logging(debug):
+            return _run_configs(rng, res, bump, configs, weakly, mode, sig, conds, keys, via, style, parallel, qs, qtt,
+                                setup, csys, base, bdesc, ref_by_sys, extra, fam, prop)
     finally:
         guard.uninstall()
 
